@@ -351,6 +351,7 @@ type Exec struct {
 	Trace          bool
 	nSel           int
 	adoptSeq       int
+	opaqueTypes    map[types.Type]bool
 	SolverRestarts int
 	curWorld       *World
 	baseG          *Term // guard of the world whose segment is being executed (goroutine mode)
